@@ -377,36 +377,64 @@ pub enum Act {
 #[derive(Clone)]
 pub struct Seq {
     pub depth: usize,
-    pub memory: bool,
+    /// 0 contract store, 1 Arc<Mutex<MemoryStore>>, 2 Arc<Mutex<Option<Passkey>>> (single slot)
+    pub kind: u8,
+    /// histories that reach the same store content are merged only beyond this depth: up to it the
+    /// complete history tree is explored, so state the authenticator itself might keep between
+    /// calls (a cache, a flag) cannot hide behind an equal store
+    pub tree_depth: usize,
 }
-fn seq_run(memory: bool, hist: &[Act]) -> (Vec<(String, String)>, Vec<(u8, u8)>, String) {
+const SEQ_STORES: [&str; 3] = ["RefStore", "MemoryStore", "Option"];
+fn seq_run(kind: u8, hist: &[Act]) -> (Vec<(String, String)>, Vec<(u8, u8)>, String) {
+    match kind {
+        1 => {
+            let mem = Arc::new(tokio::sync::Mutex::new(MemoryStore::new()));
+            seq_run_on(mem.clone(), &|| mem.recs(), false, hist)
+        }
+        2 => {
+            let slot: Arc<tokio::sync::Mutex<Option<passkey_types::Passkey>>> = Arc::new(tokio::sync::Mutex::new(None));
+            seq_run_on(slot.clone(), &|| slot.recs(), true, hist)
+        }
+        _ => {
+            let rs = Shared::new(RefStore::new());
+            seq_run_on(rs.clone(), &|| rs.recs(), false, hist)
+        }
+    }
+}
+/// One authenticator instance lives through the whole history (state it keeps between calls is
+/// part of what is explored).  `single_slot`: the store holds only the credential registered last.
+fn seq_run_on<S>(store: S, recs: &dyn Fn() -> Vec<Rec>, single_slot: bool, hist: &[Act]) -> (Vec<(String, String)>, Vec<(u8, u8)>, String)
+where
+    S: passkey_authenticator::CredentialStore<PasskeyItem = passkey_types::Passkey> + Send + Sync,
+{
     // returns findings of the last step, the model (registered (h, app) pairs), outcome
     let mut model: Vec<(u8, u8, Option<([u8; 32], [u8; 32])>)> = vec![];
     let mut fs = vec![];
     let mut outcome = String::new();
-    let mem = Arc::new(tokio::sync::Mutex::new(MemoryStore::new()));
-    let rs = Shared::new(RefStore::new());
+    let mut auth = Authenticator::new(Aaguid::new_empty(), store, ScriptedUv::consenting(Log::new()));
     for (i, a) in hist.iter().enumerate() {
         let last = i + 1 == hist.len();
         let mut step: Vec<(String, String)> = vec![];
         match a {
             Act::Register { h, app } => {
                 let (hh, aa) = (handle(8 + *h as usize, *h), pattern(*app));
-                let r = if memory { reg(&mut Authenticator::new(Aaguid::new_empty(), mem.clone(), ScriptedUv::consenting(Log::new())), pattern(2), aa, &hh) } else { reg(&mut Authenticator::new(Aaguid::new_empty(), rs.clone(), ScriptedUv::consenting(Log::new())), pattern(2), aa, &hh) };
-                match r {
+                match reg(&mut auth, pattern(2), aa, &hh) {
                     Err(p) => step.push(("panic-in-register".into(), p)),
                     Ok(Err(())) => step.push(("registration-fails".into(), "failed".into())),
                     Ok(Ok(pr)) => {
                         for (k, d) in pr {
                             step.push((k.to_string(), d));
                         }
-                        let recs = if memory { mem.recs() } else { rs.recs() };
-                        let key = recs.iter().find(|r| r.id == hh && r.rp == b64::url_nopad(&aa)).and_then(|r| r.d.as_ref()).and_then(|d| rp::public_of(d).ok()).map(|(x, y)| (x.try_into().unwrap(), y.try_into().unwrap()));
+                        let key = recs().iter().find(|r| r.id == hh && r.rp == b64::url_nopad(&aa)).and_then(|r| r.d.as_ref()).and_then(|d| rp::public_of(d).ok()).map(|(x, y)| (x.try_into().unwrap(), y.try_into().unwrap()));
                         if key.is_none() {
                             step.push(("credential-not-stored".into(), "registered credential not found under (key handle, application)".into()));
                         }
-                        // both stores are keyed by credential id (= key handle): registering a handle
-                        // again, under whichever application, replaces the earlier record
+                        // the stores are keyed by credential id (= key handle): registering a handle
+                        // again, under whichever application, replaces the earlier record; the
+                        // single-slot store keeps nothing else
+                        if single_slot {
+                            model.clear();
+                        }
                         model.retain(|(mh, _, _)| mh != h);
                         model.push((*h, *app, key));
                         outcome = "register:ok".into();
@@ -415,7 +443,7 @@ fn seq_run(memory: bool, hist: &[Act]) -> (Vec<(String, String)>, Vec<(u8, u8)>,
             }
             Act::Authenticate { h, app } => {
                 let (hh, aa) = (handle(8 + *h as usize, *h), pattern(*app));
-                let r = if memory { authn(&Authenticator::new(Aaguid::new_empty(), mem.clone(), ScriptedUv::consenting(Log::new())), pattern(3), aa, &hh, 7, true) } else { authn(&Authenticator::new(Aaguid::new_empty(), rs.clone(), ScriptedUv::consenting(Log::new())), pattern(3), aa, &hh, 7, true) };
+                let r = authn(&auth, pattern(3), aa, &hh, 7, true);
                 let known_exact = model.iter().find(|(mh, ma, _)| mh == h && ma == app);
                 let known_handle = model.iter().any(|(mh, _, _)| mh == h);
                 match r {
@@ -428,7 +456,7 @@ fn seq_run(memory: bool, hist: &[Act]) -> (Vec<(String, String)>, Vec<(u8, u8)>,
                     }
                     Ok(Ok((sig, enc))) => {
                         if !known_handle {
-                            step.push(("unknown-key-handle-accepted".into(), "authentication with a key handle that was never registered succeeded".into()));
+                            step.push(("unknown-key-handle-accepted".into(), "authentication with a key handle that is not (or no longer) registered succeeded".into()));
                             outcome = "authenticate:ok-unknown".into();
                         } else if let Some((_, _, Some(key))) = known_exact {
                             outcome = "authenticate:ok".into();
@@ -451,12 +479,12 @@ fn seq_run(memory: bool, hist: &[Act]) -> (Vec<(String, String)>, Vec<(u8, u8)>,
 }
 impl Sys for Seq {
     type Act = Act;
-    type Snap = Vec<(u8, u8)>;
+    type Snap = (Vec<(u8, u8)>, String);
     fn inits(&self) -> usize {
         1
     }
     fn init_snap(&self, _: usize) -> Self::Snap {
-        vec![]
+        (vec![], String::new())
     }
     fn actions(&self, _: usize, _: &Self::Snap, _: usize) -> Vec<Act> {
         let mut v = vec![];
@@ -472,15 +500,15 @@ impl Sys for Seq {
     fn step(&self, _init: usize, hist: &[Act], act: &Act, st: &mut Stats) -> Option<Self::Snap> {
         let mut full = hist.to_vec();
         full.push(act.clone());
-        let (fs, model, outcome) = seq_run(self.memory, &full);
-        let case = json!({"memory": self.memory, "hist": full});
-        st.case(&format!("{}/{full:?}", self.memory), true, &format!("seq:{outcome}"));
+        let (fs, model, outcome) = seq_run(self.kind, &full);
+        let case = json!({"kind": self.kind, "hist": full});
+        st.case(&format!("{}/{full:?}", self.kind), true, &format!("seq:{outcome}"));
         for (k, d) in fs {
-            st.finding(Finding::new(format!("kind={k}"), format!("{d}; sequence on {}", if self.memory { "MemoryStore" } else { "RefStore" }), case.clone()));
+            st.finding(Finding::new(format!("kind={k}"), format!("{d}; sequence on {}", SEQ_STORES[self.kind as usize % 3]), case.clone()));
         }
         let mut m = model;
         m.sort();
-        Some(m)
+        Some((m, if full.len() <= self.tree_depth { format!("{full:?}") } else { String::new() }))
     }
     fn max_depth(&self) -> usize {
         self.depth
@@ -539,16 +567,25 @@ pub fn run(ctx: &Ctx) -> Result<Run, String> {
     let depth = ctx.tier.pick(3, 6);
     let mut states = 0;
     let mut transitions = 0;
-    for memory in [false, true] {
-        let g = graph::bfs(&Seq { depth, memory }, ctx.threads);
+    for kind in 0..3u8 {
+        // the single-slot store needs one more step for "register A, use A, register B, use A"
+        let g = graph::bfs(&Seq { depth: if kind == 2 { depth + 1 } else { depth }, kind, tree_depth: ctx.tier.pick(4, 5) }, ctx.threads);
         states += g.states;
         transitions += g.transitions;
         stats.merge(g.stats);
     }
+    {
+        use super::inst::{self, IOp};
+        let alphabet = [IOp::U2fRegister { h: 0 }, IOp::U2fRegister { h: 1 }, IOp::U2fAuthenticate { h: 0 }, IOp::U2fAuthenticate { h: 1 }, IOp::Get { who: 0, prf: false, silent: false }, IOp::Make { rk: true, prf: false }];
+        let st = inst::sweep(&alphabet, ctx.tier.pick(4, 5), &[0, 1, 2], ctx.threads, "instance");
+        transitions += st.evaluations;
+        stats.count("instance_differential_histories", st.evaluations);
+        stats.merge(st);
+    }
     let n = cs.len() as u64;
     let mut run = Run::from_stats(
         "model_checking",
-        "single register+authenticate+unknown-handle runs for every key-handle length 0..255 and the product challenge/application patterns(4x4, incl. equal) x counter {0,1,2^31,2^32-1} x presence x control byte {0x03, 0x07, 0x08} x further flag bits {none, UV} x {RefStore, Arc<Mutex<MemoryStore>>, Arc<Mutex<Option<Passkey>>>} (unknown handles: the registered one plus a byte, minus a byte, with a changed byte, and the empty handle); response structs with certificate/handle/signature lengths the authenticator itself never produces encoded directly; every well-formed extended-length request frame (register, authenticate with P1 in {3,7,8} and every handle length, version; with and without trailing Le) parsed back; BFS over sequences of register(h in 2, app in 2) / authenticate(h in 2 + unknown, app in 2) on both stores. Signatures are verified with p256 over the byte strings of the U2F raw-message specification; raw encodings are parsed by the harness",
+        "single register+authenticate+unknown-handle runs for every key-handle length 0..255 and the product challenge/application patterns(4x4, incl. equal) x counter {0,1,2^31,2^32-1} x presence x control byte {0x03, 0x07, 0x08} x further flag bits {none, UV} x {RefStore, Arc<Mutex<MemoryStore>>, Arc<Mutex<Option<Passkey>>>} (unknown handles: the registered one plus a byte, minus a byte, with a changed byte, and the empty handle); response structs with certificate/handle/signature lengths the authenticator itself never produces encoded directly; every well-formed extended-length request frame (register, authenticate with P1 in {3,7,8} and every handle length, version; with and without trailing Le) parsed back; BFS over sequences of register(h in 2, app in 2) / authenticate(h in 2 + unknown, app in 2) on ONE authenticator instance over the contract store, Arc<Mutex<MemoryStore>> and the single-slot Arc<Mutex<Option<Passkey>>> (a handle whose credential was replaced is unknown again; one step deeper); the complete history tree to depth 4 (thorough 5), histories merged on equal store content beyond that. Signatures are verified with p256 over the byte strings of the U2F raw-message specification; raw encodings are parsed by the harness",
         true,
         stats,
     );
@@ -560,9 +597,13 @@ pub fn run(ctx: &Ctx) -> Result<Run, String> {
 }
 
 pub fn replay(_ctx: &Ctx, case: &Value) -> Result<Vec<Finding>, String> {
+    if let Some(fs) = super::inst::replay(case, "instance") {
+        return Ok(fs);
+    }
     if case.get("hist").is_some() {
         let hist: Vec<Act> = serde_json::from_value(case["hist"].clone()).map_err(|e| e.to_string())?;
-        let (fs, _, _) = seq_run(case["memory"].as_bool().unwrap_or(false), &hist);
+        let kind = case["kind"].as_u64().map(|k| k as u8).unwrap_or(u8::from(case["memory"].as_bool().unwrap_or(false)));
+        let (fs, _, _) = seq_run(kind, &hist);
         return Ok(fs.into_iter().map(|(k, d)| Finding::new(format!("kind={k}"), d, case.clone())).collect());
     }
     if case.get("direct_register_response").is_some() || case.get("direct_authentication_response").is_some() {
